@@ -69,10 +69,20 @@ PROPERTIES = {
     },
     "C07": {
         "units": ["ranges", "arena_forest"], "kani": ["ranges"], "kani_cex": [],
-        "explanation": "PARTIAL (section splitter): for all position vectors of any length, the ranges handed to process_section "
-                       "partition [first split position, end) in order, each starting at a split position. Which positions are chosen "
-                       "(process_blocks), heading-level arithmetic in the Projector and list padding are not covered.",
-        "assumptions": A_COMMON + ["A7 process_blocks passes strictly increasing positions <= end (unverified caller: itertools)"],
+        "explanation": "PARTIAL: (i) for all position vectors of any length, the ranges handed to process_section partition "
+                       "[first split position, end) in order, each starting at a split position; (ii) process_section / section_block / "
+                       "block hang every block under the cursor they were given without overwriting an existing link (one known "
+                       "finding); (iii) Projector::project / project_node render, for trees of any size, an outline that is well-nested "
+                       "from level 1 (each heading at most one level deeper than the one before it, heading level = section nesting "
+                       "depth + 1) and restarts at level 1 inside block quotes and list items. Not covered: which split positions are "
+                       "chosen (process_blocks), project_list_item (assumed contract), the text renderers and list padding.",
+        "assumptions": A_COMMON + [
+            "A7 process_blocks passes strictly increasing positions <= end (unverified caller: itertools); its assumed contract A7'",
+            "assumed contract of Projector::project_list_item (Option/iterator closure code): called on a projector reset with with(0), "
+            "every item it returns restarts the outline at level 1",
+            "T11 NodeIter interface with ghost size/height; trees without Table nodes (T9) and fewer than 255 nesting levels",
+            "trusted spec of Vec::extend (appends the elements of an owned Vec)",
+        ],
     },
     "C13": {
         "units": ["reader_stacks"], "kani": ["positions"], "kani_cex": [],
